@@ -133,6 +133,8 @@ type builder struct {
 // kindWords are words a resolver could glue to a name when it builds a lookup key.
 var kindWords = []string{"function", "const", "class", "use", "namespace", "self", "static", "parent", "int", "null", "true", "as"}
 
+var typeWords = []string{"int", "float", "bool", "string", "void", "iterable", "object"}
+
 func (b *builder) segPoolNow() []string {
 	if b.pool != nil {
 		return b.pool
@@ -223,6 +225,17 @@ func (b *builder) drawName(k kind, allowSpecial bool) name {
 		}
 	}
 	sortStrings(aliases)
+	if k != kClass && len(aliases) == 0 && b.chance(1, 6, "typeword") || k != kClass && b.chance(1, 16, "typeword2") {
+		// the scalar type names are special only where a class name is expected: a function or a constant
+		// of that name is an ordinary name (namespace prefix, aliases)
+		b.feats["ref:type-word-as-function-or-constant"]++
+		w := typeWords[b.intn(len(typeWords), "typeword")]
+		if k == kConst {
+			// a lone "int" / "string" ... between parentheses is a cast: constants take the words no cast uses
+			w = b.pick("constword", "void", "iterable")
+		}
+		return name{"plain", []string{b.vary(w)}}
+	}
 	choice := b.intn(10, "nameform")
 	switch {
 	case choice == 0:
